@@ -29,6 +29,10 @@ def main(argv):
     exe = nxbuild.lx_binary("lx_buildlog", "src/lx/lx_buildlog.cc")
     if c.replay:
         r = json.load(open(c.replay))
+        if "trail" not in r:
+            # a process-level finding (engine A): scenario + history
+            import nxcheck
+            nxcheck.replay(c, ["C08"])
         rc = subprocess.call([exe, "replay=" + "|".join(r["trail"])] + r.get("args", []))
         sys.exit(1 if rc == 1 else (0 if rc == 0 else 2))
     runs = []
